@@ -12,6 +12,8 @@ from harness.refmodel import freeze
 S = load()
 
 PROPERTY = "C14"
+LEVEL_TEXT = 'Validity-predicate exploration (permutation, cells kept together, lexicographic order per direction, stability, None placement, idempotence) + bounded-exhaustive core over {None,0,1} keys of length <=4 (thorough 5).'
+LEVEL_NOTE = 'Keys of one column are mutually comparable in Python.'
 DESIGN_REF = "DESIGN.md §5 C14"
 ENGINE = "relational"
 TECHNIQUE = "property-based testing + bounded-exhaustive enumeration; oracle = validity predicate (permutation, cells kept together, lexicographic order per key direction, stability, None placement, idempotence, input unchanged)"
